@@ -3,7 +3,7 @@
 From Coq Require Import List ZArith QArith Qabs Bool Arith.
 Import ListNotations.
 Require Import DTS.Base.RangeZ DTS.Base.Dyadic DTS.Base.WLS DTS.Gen.GenFromI DTS.Model.Layout DTS.Model.Design.
-Require Import DTS.Corr.WlsC DTS.Proofs.WlsCP DTS.Proofs.DesignP DTS.Proofs.ScatterP DTS.Proofs.DesignDEP.
+Require Import DTS.Corr.WlsC DTS.Proofs.WlsCP DTS.Proofs.CovP DTS.Proofs.DesignP DTS.Proofs.ScatterP DTS.Proofs.DesignDEP.
 
 Notation qrows := (list (row (P:=param))).
 
@@ -62,6 +62,26 @@ Theorem C02_residual_test_sound e rows p cols : normal_ok e rows p cols = true -
   forall a, In a cols -> (Qabs (Ga param_eqb (map qrow rows) (qpar p) a) <= Qpower 2 e * D2Q (dSa rows p a))%Q.
 Proof. exact (normal_ok_sound e rows p cols). Qed.
 
+(* the covariance judge for rank-deficient systems (splices): a `true` verdict bounds every entry of (n-p) N C N - SSR N over Q ... *)
+Theorem C02_covariance_test_sound e ef rows p cols cov : cov_ok_g e ef rows p cols cov = true ->
+  let dof := inject_Z (Z.of_nat (length rows) - Z.of_nat (length cols)) in
+  let ssr := S (map qrow rows) (qpar p) in
+  (0 < dof /\
+  forall a b, In a cols -> In b cols ->
+    Qabs (dof * NCNq rows cols cov a b - ssr * Nq (map qrow rows) a b) <=
+      Qpower 2 e * (dof * NCNabsq rows cols cov a b + ssr * Qabs (Nq (map qrow rows) a b))
+      + Qpower 2 ef * (D2Q (dY2 rows p) * Qabs (Nq (map qrow rows) a b))
+      + Qpower 2 (-40) * (ssr * D2Q (dnmax rows cols)))%Q.
+Proof. exact (cov_ok_g_sound e ef rows p cols cov). Qed.
+(* ... and in the exact limit N C N = s N pins down the variance J'CJ of every estimable functional J = N z (fitted values, calibrated
+   temperatures at reference locations, gamma, df ...), whichever generalised inverse C the solver returned *)
+Theorem C02_estimable_variances_are_determined (cols : list param) (N C : param -> param -> Q) (s : Q) :
+  (forall a b, N a b == N b a)%Q ->
+  (forall a b, In a cols -> In b cols -> ncnJ param cols N C a b == s * N a b)%Q ->
+  forall z : param -> Q,
+    (dotq param cols (mv param cols N z) (mv param cols C (mv param cols N z)) == s * dotq param cols z (mv param cols N z))%Q.
+Proof. exact (estimable_variance_is_determined param cols N C s). Qed.
+
 Example C02_ex_scatter : solver_from_i_4 2 6 4 1 [0; 2; 3; 5]%Z [] = [0; 1; 2; 3; 4; 7; 8; 10; 11; 12; 13; 14]%Z.
 Proof. vm_compute. reflexivity. Qed.
 
@@ -69,3 +89,4 @@ Print Assumptions C02_normal_equations_minimise. Print Assumptions C02_estimable
 Print Assumptions C02_scatter_positions. Print Assumptions C02_scatter_positions_matching. Print Assumptions C02_scatter_positions_X.
 Print Assumptions C02_scatter_injective. Print Assumptions C02_scatter_before_repair_refuted. Print Assumptions C02_null_space_with_splice.
 Print Assumptions C02_alpha_outside_is_weighted_mean. Print Assumptions C02_residual_test_sound.
+Print Assumptions C02_covariance_test_sound. Print Assumptions C02_estimable_variances_are_determined.
